@@ -32,6 +32,10 @@ def q(x):
     return f"({fr.numerator} # {fr.denominator})"
 
 
+def zlit(z):
+    return str(int(z)) if z >= 0 else f"({int(z)})"
+
+
 def hdr_term(h):
     """a sigpyproc Header (or a dict of its numeric fields) as a Coq Hdr literal"""
     g = (lambda k: h[k]) if isinstance(h, dict) else (lambda k: getattr(h, k))
@@ -170,6 +174,8 @@ def run(R: vlib.Run):
                   "tools/py2coq/gen_c08.py: Python ast -> exact Q/Z expressions; Header.new_header / prep_outfile are template-checked and modelled by hand "
                   "in Model/C08_rt.v (known keys override, unknown keys dropped), tied by the correspondence run",
                   "astropy Time/TimeDelta arithmetic is modelled as tstart + seconds/86400",
+                  "the header of a set of files (Header.from_sigproc on a list) is modelled by hand as the first file's header with the sample counts added "
+                  "(Model/C08_spec.v fileset), tied by the correspondence on real two-file sets",
                   "SIGPROC header encode/parse round trip (C05) when a written file is re-opened",
                   "correspondence harness and NumPy oracle tools/harness/props/c08.py"]
     R.assume += ["float64 evaluation of the header expressions stays within 1e-9 relative of the exact value (checked on every correspondence case)",
@@ -184,7 +190,7 @@ def run(R: vlib.Run):
                  "the DM attribute of a block is demanded of read_block / read_dedisp_block / dedisperse and of the blocks FilterbankBlock.downsample / "
                  "normalise / pad_samples make from them (attribute and header are separate records; each must keep what the input block had)"]
     R.prove("Props/C08.v")
-    R.need(["Model/C08_rt.vo", "Gen/C08.vo"])
+    R.need(["Model/C08_rt.vo", "Model/C08_spec.vo", "Gen/C08.vo"])
 
     rng = R.rng
     nprng = np.random.default_rng(R.seed + 8)
@@ -448,6 +454,7 @@ def run(R: vlib.Run):
                 delays = fil.header.get_dmdelays(dm).astype(int)
                 # ascending band / negative DM: some delays are negative; the delays are then referred to the earliest channel
                 neg = int(delays.min()) < 0
+                rawmin, rawmax = int(delays.min()), int(delays.max())      # as get_dmdelays returns them: the model refers them itself
                 delays = delays - min(0, int(delays.min()))
                 md = int(delays.max())
                 if md < nsel - 1:
@@ -466,8 +473,10 @@ def run(R: vlib.Run):
                         t0 = find_offset(ref, np.asarray(t.data, dtype=np.float64), st)
                         ck.common("dedisperse", hin, ho, t0=st if t0 is None else t0, dm=dm, extra={"dm": dm, "max_delay": md})
                         ck.sum_labels("dedisperse", hin, ho, C, 1, spacing=False)
-                        corr.append((f"hdr_close (hdr_dedisperse {hin_t} {q(dm)} {st} {coq_ns} {md}) {hdr_term(t.header)} && "
-                                     f"(datalen_dedisperse {hin_t} {q(dm)} {st} {coq_ns} {md} =? {len(t.data)})", dict(base, api="dedisperse", dm=dm, impl=ho)))
+                        mdt = f"(max_delay_referred {zlit(rawmin)} {zlit(rawmax)})"
+                        corr.append((f"hdr_close (hdr_dedisperse {hin_t} {q(dm)} {st} {coq_ns} {mdt}) {hdr_term(t.header)} && "
+                                     f"(datalen_dedisperse {hin_t} {q(dm)} {st} {coq_ns} {mdt} =? {len(t.data)}) && ({mdt} =? {md})",
+                                     dict(base, api="dedisperse", dm=dm, raw_delays=[rawmin, rawmax], impl=ho)))
                         if dm != 0.0 and len(t.data) >= 16:
                             ts_dd = t
 
@@ -680,6 +689,8 @@ def run(R: vlib.Run):
                 ck.common("block.normalise", blk_h, hdict(b.header), t0=0, dm=blk_h["dm"])
                 ck.copy_labels("block.normalise", blk_h, hdict(b.header), list(range(C)))
                 keeps_dm(ck, "block.normalise", blk, b)
+                corr.append((f"hdr_close (hdr_block_normalise {blk_t}) {hdr_term(b.header)} && Qclose (1 # 1000000000) (cdm_block_new_like {q(blk.dm)}) {q(b.dm)}",
+                             dict(base, api="block.normalise", impl=hdict(b.header))))
             nfin = blk.data.shape[1] + rng.randrange(1, 9)
             poff = rng.randrange(0, nfin - blk.data.shape[1] + 1)
             kk, b = call(blk.pad_samples, nfin, poff)
@@ -743,6 +754,11 @@ def run(R: vlib.Run):
                                 shape=list(bv.data.shape), delays=[int(dl.min()), int(dl.max())], dm=dmv)
                 ck.common(api, blk_h, ho, t0=t0v, extra=dict(dm=dmv))
                 ck.copy_labels(api, blk_h, ho, list(range(C)), extra=dict(dm=dmv))
+                if opt == "only_valid":
+                    nb_, dmn_, dmx_ = blk.data.shape[1], zlit(int(dl.min())), zlit(int(dl.max()))
+                    corr.append((f"(block_valid_cols {nb_} {dmn_} {dmx_} =? {bv.data.shape[1]})" +
+                                 (f" && (block_valid_start {nb_} {dmn_} {dmx_} =? {o})" if o is not None else ""),
+                                 dict(base, api=api, dm=dmv, delays=[int(dl.min()), int(dl.max())], first_column_is_block_sample=o, impl=ho)))
                 corr.append((f"hdr_close (hdr_block_dedisperse {blk_t} {q(dmv)} {bv.data.shape[1]}) {hdr_term(bv.header)} && "
                              f"Qclose (1 # 1000000000) (cdm_block_dedisperse {blk_t} {q(dmv)} {bv.data.shape[1]}) {q(bv.dm)}", dict(base, api=api, dm=dmv, impl=ho)))
             dm = rng.uniform(1.0, 60.0) * rng.choice([1, 1, -1])
@@ -838,6 +854,8 @@ def run(R: vlib.Run):
                         if len(u.data) != len(t.data) + len(other) - 1:
                             ck.fail("ts.correlate", "length", "the full correlation does not have len(a) + len(b) - 1 lags", length=len(u.data), lengths=[len(t.data), len(other)])
                         corr.append((f"hdr_close (hdr_ts_correlate {tt} {len(u.data)}) {hdr_term(u.header)}", dict(base, api="ts.correlate", impl=ho)))
+                    else:
+                        corr.append((f"hdr_close (hdr_ts_{nm} {tt}) {hdr_term(u.header)}", dict(base, api="ts." + nm, impl=ho)))
                 p = out("ts.tim")
                 kk, r = call(t.to_tim, p)
                 R.case(("ts_to_tim", ci, of), nontrivial=True, regime="ts_to_tim")
@@ -878,6 +896,12 @@ def run(R: vlib.Run):
                         ck.common("read_block", hin, ho, t0=st if t0 is None else t0, dm=hin["dm"])
                         ck.copy_labels("read_block", hin, ho, list(range(C)))
                         block_dm(ck, "read_block", b)
+                        h1t, h2t = (hdr_term(Header.from_sigproc(os.path.join(d, f"o{ci}_set_{i}.fil"))) for i in (0, 1))
+                        corr.append((f"hdr_close (fileset {h1t} {h2t}) {hdr_term(fs.header)} && "
+                                     f"match read_block_model (fileset {h1t} {h2t}) {st} {ns} {q(hin['fch1'])} {C} {b.data.shape[1]} with None => false | Some (cs, rows, hh) => "
+                                     f"(cs =? 0) && (rows =? {b.data.shape[0]}) && hdr_close hh {hdr_term(b.header)} && "
+                                     f"Qle_bool (Qabs (h_tstart hh - mjd_after_nsamps {h2t} ({st} - {cut}))) tt5us end",
+                                     dict(base, api="read_block", impl=ho)))
                     kk, t = call(fs.collapse, gulp=gulp, start=st, nsamps=ns, quiet=True)
                     if kk != "ok":
                         ck.fail("collapse", "exception", "collapse raised", exc=t)
@@ -932,7 +956,7 @@ def run(R: vlib.Run):
         shutil.rmtree(d, ignore_errors=True)
 
     # ---- correspondence: regenerated header functions (vm_compute) vs implementation -------------------------------
-    prelude = ["From Coq Require Import ZArith QArith Qabs Qminmax List Bool PrimFloat.", "Require Import SPP.Model.C08_rt SPP.Gen.C08.",
+    prelude = ["From Coq Require Import ZArith QArith Qabs Qminmax List Bool PrimFloat.", "Require Import SPP.Model.C08_rt SPP.Model.C08_spec SPP.Gen.C08.",
                "Import ListNotations.", "Open Scope Z_scope.",
                "Definition tt5us : Q := (5 # 86400000000).",
                "Definition hdr_close (m i : Hdr) : bool :=",
